@@ -12,7 +12,7 @@ NODES = HOSTS + CLIENTS
 ACCTS = ["a1", "a2"]
 CONNS = ["k1", "k2", "k3", "k4", "k5", "k6"]
 BAD_ALTERS = ["method", "method2", "otherkey", "ident", "nonce+1", "nonce-1", "nonce+s", "param",
-              "sigbyte", "emptysig", "garbagesig", "shortsig", "zerosig", "styleswap"]
+              "sigbyte", "emptysig", "garbagesig", "shortsig", "zerosig", "styleswap", "case"]
 
 
 class PoolGen:
@@ -35,6 +35,8 @@ class PoolGen:
         if weights:
             self.w.update(weights)
         self.cfg = cfg or {}
+        # "a1L" is wallet a1 spelled in lower case: the same key, a different identity string
+        self.accts = ACCTS + (["a1L"] if self.cfg.get("walletcase") else [])
 
     # -- helpers
     def nonce(self, ident):
@@ -54,7 +56,7 @@ class PoolGen:
             price = self.cfg.get("price", r.choice([1, 7, 60, 61, 1000]))
         else:
             price = self.cfg.get("price", r.choice([60, 120, 600]))
-        op = {"op": "Reset", "pool": True, "nodes": NODES + ["x9"], "accts": ACCTS, "unit": unit,
+        op = {"op": "Reset", "pool": True, "nodes": NODES + ["x9"], "accts": self.accts, "unit": unit,
               "price": price, "interval": 60,
               "maxhosts": self.cfg.get("maxhosts", r.choice([0, 0, 1, 2, 3])),
               "fee": self.cfg.get("fee", r.choice([0, 10]))}
@@ -103,7 +105,7 @@ class PoolGen:
         op["alter"] = alter or "none"
         op["nonce"] = self.nonce(ident)
         if alter in ("otherkey", "ident"):
-            cands = [n for n in (ACCTS if ident in ACCTS else NODES) if n != ident]
+            cands = [n for n in (ACCTS if ident in self.accts else NODES) if n != ident and n + "L" != ident]
             op["other"] = self.r.choice(cands)
         if alter in ("sigbyte", "shortsig"):
             op["pos"] = self.r.randint(0, 63)
@@ -180,16 +182,16 @@ class PoolGen:
         elif kind == "peer":
             self.peer(r.choice(NODES), alter=alter)
         elif kind == "addnode":
-            self.addnode(r.choice(ACCTS), r.choice(NODES), alter=alter)
+            self.addnode(r.choice(self.accts), r.choice(NODES), alter=alter)
         else:
             # pool_withdraw has no parameters to alter
-            self.withdraw(r.choice(ACCTS), alter=alter if alter != "param" else "otherkey")
+            self.withdraw(r.choice(self.accts), alter=alter if alter != "param" else "otherkey")
         # the refused nonce was above the owner's: the owner now uses a smaller-but-fresh one
         if r.random() < 0.7:
             ident = self.ops[-1]["ident"]
             forged_nonce = self.ops[-1]["nonce"]
             self.sec_ctr[(ident, self.now)] = self.sec_ctr.get((ident, self.now), 1) - 1  # reuse the same nonce value
-            if ident in ACCTS:
+            if ident in self.accts:
                 self.addnode(ident, r.choice(NODES)) if r.random() < 0.5 else self.withdraw(ident)
             elif ident in self.connected:
                 self.update(ident)
@@ -297,9 +299,9 @@ class PoolGen:
         elif kind == "reopen":
             self.open_conn()
         elif kind == "addnode":
-            self.addnode(r.choice(ACCTS), r.choice(NODES))
+            self.addnode(r.choice(self.accts), r.choice(NODES))
         elif kind == "withdraw":
-            self.withdraw(r.choice(ACCTS))
+            self.withdraw(r.choice(self.accts))
         elif kind == "deposit":
             self.emit({"op": "Deposit", "acct": r.choice(ACCTS), "amt": r.choice([0, 10, 100, 1000])})
         elif kind == "forged":
